@@ -39,11 +39,35 @@ func mkMsgCase(kind string, ver kmip.ProtocolVersion, ref *ttlvref.Node, lib []b
 // drawMessage draws a request or response message; returns the message (pointer), a fresh
 // zero value to decode into, and the header version.
 func drawMessage(t *rapid.T, o gen.MsgOpts) (msg any, fresh func() any, ver kmip.ProtocolVersion, kind string) {
+	// one message in sixteen is made large (its batch items repeated up to 400 times): encodings of tens to hundreds
+	// of KiB cross the writers' buffer growth steps with structures open
+	large := 0
+	if rapid.IntRange(0, 15).Draw(t, "large") == 0 {
+		large = rapid.SampledFrom([]int{20, 60, 150, 400}).Draw(t, "repeat")
+	}
 	if rapid.Bool().Draw(t, "isRequest") {
 		m := gen.Request(t, o)
+		if n := len(m.BatchItem); large > 0 && n > 0 {
+			for i := n; i < large; i++ {
+				m.BatchItem = append(m.BatchItem, m.BatchItem[i%n])
+			}
+			m.Header.BatchCount = int32(len(m.BatchItem))
+			if o.Labels != nil {
+				o.Labels("large-batch")
+			}
+		}
 		return m, func() any { return &kmip.RequestMessage{} }, m.Header.ProtocolVersion, "request"
 	}
 	m := gen.Response(t, o)
+	if n := len(m.BatchItem); large > 0 && n > 0 {
+		for i := n; i < large; i++ {
+			m.BatchItem = append(m.BatchItem, m.BatchItem[i%n])
+		}
+		m.Header.BatchCount = int32(len(m.BatchItem))
+		if o.Labels != nil {
+			o.Labels("large-batch")
+		}
+	}
 	return m, func() any { return &kmip.ResponseMessage{} }, m.Header.ProtocolVersion, "response"
 }
 
